@@ -42,6 +42,8 @@ def place_demo(outdir, x, wt, meta):
     dst = os.path.join(wt, demo_dir)
     os.makedirs(dst, exist_ok=True)
     placed = []
+    if 'cp ' in meta.get('demo_cmd', ''):      # the demo command places the file itself
+        return dst, placed
     for f in glob.glob(os.path.join(outdir, x + '_demo*')):
         if os.path.isdir(f):
             t = os.path.join(dst, os.path.basename(f))
@@ -98,6 +100,7 @@ def main():
                     shutil.rmtree(f)
                 else:
                     os.remove(f)
+            sh(['git', '-C', wt_p, 'clean', '-fdq'])
             worktree(wt_c)
             _d, placed = place_demo(a.outdir, a.x, wt_c, meta)
             rc2, out2 = sh(demo_cmd(meta, wt_c), cwd=wt_c)
